@@ -423,9 +423,10 @@ class Interp:
             if op in ("|", "&") and isinstance(a, bool) and isinstance(b, bool):
                 return (a or b) if op == "|" else (a and b)
             return OPAQUE
+        tainted = isinstance(a, Wire) or isinstance(b, Wire)
         try:
             if op == "+":
-                return a + b
+                return Wire(a + b) if tainted else a + b
             if op == "-":
                 return a - b
             if op == "*":
@@ -821,6 +822,15 @@ class Interp:
                 return recv.pop(args[0])
             if m == "pop":
                 return ("Some", recv.pop()) if recv else ("None",)
+            if m == "resize" and len(args) == 2 and isinstance(args[0], int):
+                if isinstance(args[0], Wire):
+                    self.effects.append(("alloc-from-wire", "resize"))
+                if args[0] > 65536:
+                    raise Unknown("resize to %d" % args[0])
+                while len(recv) < args[0]:
+                    recv.append(args[1])
+                del recv[args[0]:]
+                return ("tuple", [])
             if m == "truncate" and args and isinstance(args[0], int):
                 del recv[args[0]:]
                 return ("tuple", [])
@@ -1006,7 +1016,11 @@ class Interp:
             import math
             return isinstance(recv, float) and math.isnan(recv)
         if m in ("max", "min") and num and args and isinstance(args[0], (int, float)):
-            return max(recv, args[0]) if m == "max" else min(recv, args[0])
+            r = max(recv, args[0]) if m == "max" else min(recv, args[0])
+            # min with a trusted bound is itself bounded: the untrusted-length taint does not survive
+            if m == "min" and isinstance(r, Wire) and (not isinstance(recv, Wire) or not isinstance(args[0], Wire)):
+                r = int(r)
+            return r
         if m in ("is_none_or", "is_some_and") and isinstance(recv, tuple) and recv[0] in ("Some", "None") and args and isinstance(args[0], dict):
             if recv[0] == "None":
                 return m == "is_none_or"
